@@ -1477,6 +1477,13 @@ M('C17', 'Config.save_hdf5 saves as_dict() (round-5 seed b)', 'tenpy/tools/param
   "        type_repr = hdf5_saver.save_dict_content(self.options, h5gr, subpath)", "        type_repr = hdf5_saver.save_dict_content(self.as_dict(), h5gr, subpath)",
   'HDF5-field')
 
+M('C18', 'run_seq_simulations stores the index after copying the parameters (round-5 seed a)', SIM,
+  "        sequential['index'] = index\n        sim_params = copy.deepcopy(simulation_params)\n", "        sim_params = copy.deepcopy(simulation_params)\n        sequential['index'] = index\n",
+  'RESUME-seq-index')
+M('C18', 'EvolveBraKet.init_algorithm delegates before reading resume_data_bra (round-5 seed b)', 'tenpy/simulations/time_evolution.py',
+  "    def init_algorithm(self, **kwargs):\n        resume_data_bra = None\n", "    def init_algorithm(self, **kwargs):\n        super().init_algorithm(**kwargs)\n        resume_data_bra = None\n",
+  'RESUME-read-before-consume')
+
 # ---------------------------------------------------------------- C16 / C19
 M('C16', 'GMRES restart: relative residual norm used for normalisation (round-3 seed b)', KRY,
   """        self.total_error.append([npc.norm(self.rs[-1]) / self.b_norm])
